@@ -394,18 +394,37 @@ def check_config_copy(ck, rule, only=None):
 
 
 
+_IMPORT_DEPTH = 0
+
+
 def import_rules(ck, module, mapping):
     """Run another property's rule module on the same program and adopt the obligations of the listed rules under new
     rule ids (a clause shared by two properties is decided once, reported under both)."""
     from vlib import report
-    tmp = report.Check(ck.prog, ck.prop, ck.tier)
-    tmp.analysis_error = None
-    try:
-        module.check(tmp)
-        tmp.finish()
-    except AnalysisError as ex:
-        if not any(o["rule"] in mapping for o in tmp.obligations):
-            raise
+    global _IMPORT_DEPTH
+    if _IMPORT_DEPTH:
+        # the rules adopted from another module are always that module's own rules: its imports are not needed here
+        # (and two properties may import clauses from each other)
+        return
+    cache = ck.prog.__dict__.setdefault("_import_cache", {})
+    run = module if callable(module) else module.check
+    key = ((module.__module__ + "." + module.__name__) if callable(module) else module.__name__, ck.tier)
+    if key not in cache:
+        tmp = report.Check(ck.prog, ck.prop, ck.tier)
+        tmp.analysis_error = None
+        err = None
+        _IMPORT_DEPTH += 1
+        try:
+            run(tmp)
+            tmp.finish()
+        except AnalysisError as ex:
+            err = ex
+        finally:
+            _IMPORT_DEPTH -= 1
+        cache[key] = (tmp, err)
+    tmp, err = cache[key]
+    if err is not None and not any(o["rule"] in mapping for o in tmp.obligations):
+        raise err
     for o in tmp.obligations:
         if o["rule"] in mapping:
             if o["ok"]:
@@ -844,3 +863,107 @@ def check_no_shared_mutable(ck, rule, modules=None):
                        "calls that rely on the default share (and accumulate) its content" % (p, fi.name), q.loc(fi, fi.node))
     ck.ok(rule, "package: shared mutable class attributes / default arguments", "none (%d classes, %d functions scanned)" % (len(prog.classes), len(prog.funcs)), "")
     return n_
+
+
+# ---------------------------------------------------------------------------
+# Containment handlers stay inert on user-supplied objects (shared by C09 / C10 / C16)
+# ---------------------------------------------------------------------------
+def _self_rooted(e):
+    while isinstance(e, ast.Attribute):
+        e = e.value
+    return isinstance(e, ast.Name) and e.id == "self"
+
+
+def _use_kind(node, parents):
+    """How a handler uses a local object that came from user code: None when the use cannot run user code (the object is
+    only handed on), else a description of the eager operation."""
+    child, par = node, parents.get(id(node))
+    while isinstance(par, (ast.Tuple, ast.List)):
+        child, par = par, parents.get(id(par))
+    if isinstance(par, ast.keyword):
+        child, par = par, parents.get(id(par))
+    if isinstance(par, ast.Call):
+        if child is par.func:
+            return "called (`%s`)" % dump(par)[:50]
+        f = par.func
+        if isinstance(f, ast.Attribute) and _self_rooted(f):
+            return None                  # handed to one of the object's own collaborators (logger: lazy formatting; event: stored)
+        if isinstance(f, ast.Name) and f.id == "getattr" and len(par.args) == 3 and isinstance(par.args[1], ast.Constant):
+            return None                  # getattr with a default does not raise AttributeError
+        if isinstance(f, ast.Name) and f.id in ("isinstance", "type", "id"):
+            return None
+        return "argument of `%s(...)`, evaluated in the handler" % dump(f)[:40]
+    if isinstance(par, (ast.Assign, ast.AnnAssign, ast.Return, ast.Expr)):
+        return None
+    if isinstance(par, ast.Compare) and all(isinstance(o, (ast.Is, ast.IsNot)) for o in par.ops):
+        return None
+    if isinstance(par, ast.Raise):
+        return "raised again (`%s`)" % dump(par)[:50]
+    if isinstance(par, ast.Attribute):
+        return "attribute load `%s`" % dump(par)[:50]
+    if isinstance(par, ast.BinOp):
+        return "operand of `%s` (eager formatting / arithmetic calls the object's own methods)" % dump(par)[:50]
+    if isinstance(par, ast.FormattedValue):
+        return "formatted in an f-string"
+    return "used in `%s`" % (dump(par)[:50] if par is not None else "?")
+
+
+def check_inert_handlers(ck, rule, scopes=("worker", "notify")):
+    """The handlers that contain a failing task (ThreadPool.__run) and a failing callback (FutureResult.__notify) are the
+    last line of defence: whatever they do with the objects that came from user code (the exception, the callable, its
+    arguments) must not be able to raise in turn, or the failure escapes after all - the worker thread dies (fewer than
+    min_threads workers, tasks left in the queue) or the callback's exception replaces the task's outcome.  Accepted uses:
+    handing the object to a collaborator rooted at self (logger methods format lazily and swallow formatting errors;
+    the event stores it), getattr with a default, identity tests, stores.  Anything that evaluates the object in the
+    handler (attribute load, %-formatting, str()/format(), f-string, call, subscript, re-raise) is reported."""
+    prog = ck.prog
+    targets = []
+    if "worker" in scopes:
+        frun = prog.func("threadpool", "ThreadPool.__run")
+        targets.append((frun, lambda c: isinstance(c.func, ast.Attribute) and c.func.attr == "execute", "the task"))
+    if "notify" in scopes:
+        fno = prog.func("threadpool", "FutureResult.__notify")
+        targets.append((fno, lambda c: isinstance(c.func, ast.Name) or (isinstance(c.func, ast.Attribute) and "callback" in c.func.attr), "the callback"))
+    found = 0
+    for (fi, is_target, what) in targets:
+        tries = []
+        for t in ast.walk(fi.node):
+            if isinstance(t, ast.Try) and any(isinstance(c, ast.Call) and is_target(c) for st in t.body for c in ast.walk(st)) and t.handlers:
+                tries.append(t)
+        if not tries:
+            raise AnalysisError("anchor vanished: the try statement containing %s in %s" % (what, q.fn(fi)))
+        local_names = set(fi.params) | set(x.id for x in ast.walk(fi.node) if isinstance(x, ast.Name) and isinstance(x.ctx, ast.Store)) | \
+            set(x.name for x in ast.walk(fi.node) if isinstance(x, ast.ExceptHandler) and x.name)
+        for t in tries:
+            for h in t.handlers:
+                found += 1
+                parents = {}
+                for st in h.body:
+                    parents[id(st)] = h
+                    for x in ast.walk(st):
+                        for ch in ast.iter_child_nodes(x):
+                            parents[id(ch)] = x
+                seen = {}
+                bare = [x for st in h.body for x in ast.walk(st) if isinstance(x, ast.Raise) and x.exc is None]
+                ck.require(not bare, rule, "%s: handler `except %s` around %s does not re-raise" % (q.fn(fi), dump(h.type) if h.type else "", what),
+                           "no bare raise", "the handler that contains a failure of %s raises it again" % what,
+                           fi.loc(bare[0] if bare else h))
+                for st in h.body:
+                    for x in ast.walk(st):
+                        if isinstance(x, ast.Name) and isinstance(x.ctx, ast.Load) and x.id != "self" and x.id in local_names:
+                            kind = _use_kind(x, parents)
+                            key = (x.id, kind.split(" (")[0].split(" `")[0] if kind else None)
+                            seen[key] = seen.get(key, 0) + 1
+                            ck.require(kind is None, rule,
+                                       "%s: handler around %s: use of `%s`%s" % (q.fn(fi), what, x.id, " #%d" % seen[key] if seen[key] > 1 else ""),
+                                       "only handed on (logger argument / stored / getattr with default)",
+                                       "in the handler that must contain a failure of %s, the user-supplied object `%s` is %s: if that "
+                                       "operation raises (an object without the attribute, a failing __str__), the exception escapes the "
+                                       "handler - %s" % (what, x.id, kind,
+                                                         "the worker thread dies: fewer workers than min_threads serve the queue and tasks "
+                                                         "already queued wait until something else starts a worker" if what == "the task" else
+                                                         "the callback's exception is no longer contained (it replaces the task's outcome in "
+                                                         "execute() / propagates to the caller of set_callback)"),
+                                       fi.loc(x))
+    if found < len(targets):
+        raise AnalysisError("anchor vanished: containment handlers (%d found)" % found)
